@@ -98,7 +98,7 @@ def run_e2e(ctx, nconf, nprog, tag):
     kinds = {}
     rows = 0
     for (wd, name, text, g, files), ((rc, so, se), (rc2, so2, se2)) in zip(jobs, common.pmap(one, jobs)):
-        if rc != 0 or rc2 != 0 or so.strip().endswith("timeout") or so2.strip().endswith("timeout"):
+        if rc != 0 or rc2 != 0 or "timeout" in so.split("\n") or "timeout" in so2.split("\n"):
             continue
         for k, v in g.kinds.items():
             kinds[k] = kinds.get(k, 0) + v
